@@ -99,7 +99,7 @@ func TestVfC18Startup(t *testing.T) {
 		case "missing-domain-file":
 			cfg.DomainSets = append(cfg.DomainSets, DomainSet{Tag: "d2", Files: []string{"$DIR/dom.txt", "$DIR/absent-domains.txt"}})
 		}
-		p, err := StartProxy(cfg.YAML(), files, ProxyOpts{})
+		p, err := StartProxy(cfg.YAML(), files, ProxyOpts{ExpectBindFailure: true})
 		if err != nil {
 			t.Fatalf("%v", err)
 		}
